@@ -27,11 +27,18 @@ type rtItem struct {
 	file  *ir.File
 	it    *scratch.Item
 	descs *protoregistry.Files
+	opts  scratch.AddOpts // the plugin subset the package was built from
 }
 
 // buildBatch generates and compiles n schemas produced by mk. Items that fail to generate or
 // build are returned with it.Built == false (the caller decides what that means).
 func buildBatch(n int, mk func(i int) *ir.Request, add scratch.AddOpts, race bool) (*scratch.Batch, []*rtItem, error) {
+	return buildBatchOpts(n, mk, func(int) scratch.AddOpts { return add }, race)
+}
+
+// buildBatchOpts: like buildBatch with the plugin subset chosen per schema (a package holding the
+// output of ONE Go plugin shows what that plugin alone emits; with both, the later file wins).
+func buildBatchOpts(n int, mk func(i int) *ir.Request, addFor func(i int) scratch.AddOpts, race bool) (*scratch.Batch, []*rtItem, error) {
 	bt, err := scratch.NewBatch()
 	if err != nil {
 		return nil, nil, err
@@ -40,6 +47,7 @@ func buildBatch(n int, mk func(i int) *ir.Request, add scratch.AddOpts, race boo
 	var firstErr error
 	parallel(n, func(i int) {
 		req := mk(i)
+		add := addFor(i)
 		it, err := bt.Add(fmt.Sprintf("s%04d", i), req, add)
 		if err != nil {
 			firstErr = err
@@ -50,7 +58,7 @@ func buildBatch(n int, mk func(i int) *ir.Request, add scratch.AddOpts, race boo
 			firstErr = err
 			return
 		}
-		items[i] = &rtItem{req: req, file: req.FileByName(req.PrimaryName()), it: it, descs: ds}
+		items[i] = &rtItem{req: req, file: req.FileByName(req.PrimaryName()), it: it, descs: ds, opts: add}
 	})
 	if firstErr != nil {
 		bt.Close()
